@@ -22,10 +22,13 @@ class C02(Property):
     theorem_modules = ['RosuModel.Props.C02All', 'RosuModel.Props.C02CodecIeee', ('RosuModel.Props.IeeeFalse', 'Rosu.IeeeFalse'), 'RosuModel.Props.C02DecodedIeee',
                        'RosuModel.Props.C02FinalParts', 'RosuModel.Props.C02Final', 'RosuModel.Props.C02FinalDecoded', 'RosuModel.Props.C02FinalMania', 'RosuModel.Props.C02FinalToy',
                        'RosuModel.Props.C02FinalUnordered', ('RosuModel.Lemmas.RtTimelineDsv', 'Rosu.RtTiming'),
-                       'RosuModel.Props.C02FinalCurves', 'RosuModel.Props.C02FinalScroll', 'RosuModel.Props.C02FinalScrollToy', 'RosuModel.Props.C02FinalScrollExact', 'RosuModel.Props.C02IeeeTiming']   # files whose top-level theorems are all audited
+                       'RosuModel.Props.C02FinalCurves', 'RosuModel.Props.C02FinalScroll', 'RosuModel.Props.C02FinalScrollToy', 'RosuModel.Props.C02FinalScrollExact', 'RosuModel.Props.C02IeeeTiming',
+                       'RosuModel.Props.C02Capstone', 'RosuModel.Props.C02CapstoneToy', 'RosuModel.Props.C02CapstoneToyRt', 'RosuModel.Props.C02CapstoneFalse']   # files whose top-level theorems are all audited
     namespace = "Rosu.C02"
     design_ref = "5.2"
     required_theorems = [
+        "roundtrip_decoded_capstone", "roundtrip_statement_full_on_domain", "exactLaws_zc", "cap_domain", "cap_roundtrip", "cap_roundtrip_total",
+        "roundtrip_statement_full_false", "f16_roundtrip_fails", "f16_other_fields", "f16_not_in_domain",
         "sv_reread_err_float", "sv_roundtrip_err_float", "scroll_roundtrip_err_float", "sv_roundtrip_not_exact_float", "svInverse_iff_float", "sv_redundancy_flips_float",
         "decoded_scroll_timeline", "decoded_scrollDrivesSv", "roundtrip_objects_decoded_scroll_partial", "unordered_scroll_counterexample", "mode_change_counterexample",
         "same_fields_same_curve", "finish_curves", "roundtrip_curves_partial", "roundtrip_curves_decoded_partial",
@@ -50,6 +53,13 @@ class C02(Property):
                          "roundtrip_rep_partial", "roundtrip_rep_counts", "toyMap_timeline_hyps",
                          "records_roundtrip_decoded", "records_roundtrip_decoded_of_limitRep"]
     partial_theorems = {
+        "roundtrip_decoded_capstone": "Props/C02Capstone.lean (sixth session, wave 6): ONE theorem about decoded maps that composes every piece — for a file `bs` that decodes and finishes to `m`, with "
+            "`DecodedDomain RF bs st m` (one named field per exclusion: chronological objects, LogGood timing lines (F15), NoDoubleSlash (F16), ObjResidualF17 per object (F17/F20/F21), CollectedTimesInLimit (F26), "
+            "PathStable, TimelineHyps) and an encode `t`, the bytes of `t` decode to a single state whose every finish `m2` satisfies `PreservedEq m m2` (six record sections, colours, timing points, slider "
+            "velocity / scroll speed / kiai at EVERY time, object count, per-object ObjPreserved, equal computed curves) in all four modes. PARTIAL in one respect only: the arithmetic enters through the bundle "
+            "`ExactLaws F P RF RP`, four of whose fields (eps, group, near, dur) are exact-arithmetic laws refuted for Float (IeeeFalse.*, durLawsZ_float_false, F25/F26), so the capstone is a theorem of the exact "
+            "instance (`exactLaws_zc`, non-vacuous: cap_domain / cap_roundtrip_total on a decoded taiko file) and the IEEE side stays with the per-clause *_float theorems. The statement without the domain "
+            "(`roundtrip_statement_full`) is REFUTED in the kernel: roundtrip_statement_full_false on the F16 file, with f16_other_fields showing noDoubleSlash is the only field that file violates",
         "editor_block_roundtrip / difficulty_block_roundtrip / general_block_roundtrip / events_block_roundtrip / records_roundtrip":
             "law-dependent: proved for every number codec satisfying CodecLaws (parse(print x) = x on the representable values; printed numbers are non-empty and made of "
             "number characters only) and, for AudioLeadIn, IntPrintLaw (integral values print like integers). The laws are shown satisfiable by the toy codec of Lemmas/ToyCodec.lean "
